@@ -132,3 +132,12 @@ func VH_E_ok_SymIndexArray() {
 	vhAssert(vhImplies(i != 2, r == nil), "iface-elem-nil")
 	vhReach("e-symindex")
 }
+
+func VH_E_bad_NegativeSizeUnderCut() {
+	// the cut policy drops large sizes but never the negative ones: make panics for n < 0
+	vhSplitCap(4)
+	n := vhInt("n")
+	vhAssume(n < 100)
+	b := make([]byte, n)
+	_ = b
+}
